@@ -364,6 +364,66 @@ def whitespaceTokenize (input : Bytes) : List Token := charTokenize (fun r => !i
 def singleTokenize (input : Bytes) : List Token :=
   [{ term := input, start := 0, stop := input.length, posIncr := 1, typ := tAlphaNumeric }]
 
+/-! ### tokenizers over the output of a dependency (regexp match indices, blevesearch/segment) -/
+
+def tNumeric : Nat := 2
+
+/-- tokenizer/regexp.go: `found` is `r.FindAllIndex(input, -1)`, `typeOf` is `detectTokenType` -/
+def regexpTokenize (typeOf : Bytes → Nat) (found : List (Int × Int)) (input : Bytes) : Option (List Token) :=
+  (loop found (fun (rv : List Token) (m : Int × Int) =>
+    match goSlice input m.1 m.2 with
+    | none => none
+    | some matchBytes =>
+      if m.2 - m.1 > 0 then
+        some ({ term := matchBytes, start := m.1, stop := m.2, posIncr := 1, typ := typeOf matchBytes } :: rv)
+      else some rv) []).map List.reverse
+
+/-- `token.Start += currInput; token.End += currInput` -/
+def shiftTok (k : Int) (t : Token) : Token := { t with start := t.start + k, stop := t.stop + k }
+
+/-- body of `for _, match := range matches` in tokenizer/exception.go: state (currInput, rv reversed) -/
+def exceptionsStep (remaining : Bytes → List Token) (input : Bytes) (st : Int × List Token) (m : Int × Int) :
+    Option (Int × List Token) :=
+  match (if m.1 > st.1 then (goSlice input st.1 m.1).map fun seg => (remaining seg).map (shiftTok st.1) else some []) with
+  | none => none
+  | some inter =>
+    match goSlice input m.1 m.2 with
+    | none => none
+    | some term =>
+      some (m.2, ({ term := term, start := m.1, stop := m.2, posIncr := 1 } : Token) :: (inter.reverse ++ st.2))
+
+/-- tokenizer/exception.go: `found` is `exception.FindAllIndex(input, -1)`, `remaining` the inner tokenizer -/
+def exceptionsTokenize (remaining : Bytes → List Token) (found : List (Int × Int)) (input : Bytes) : Option (List Token) :=
+  (loop found (exceptionsStep remaining input) (0, [])).bind fun st =>
+    if st.1 < input.length then
+      (goSlice input st.1 input.length).map fun seg => (((remaining seg).map (shiftTok st.1)).reverse ++ st.2).reverse
+    else some st.2.reverse
+
+/-- the order `FindAllIndex` promises: successive, non-overlapping, in-range found -/
+def MatchesFrom (len : Int) : Int → List (Int × Int) → Prop
+  | _, [] => True
+  | cur, m :: rest => cur ≤ m.1 ∧ m.1 ≤ m.2 ∧ m.2 ≤ len ∧ MatchesFrom len m.2 rest
+
+instance (len : Int) : ∀ (cur : Int) (ms : List (Int × Int)), Decidable (MatchesFrom len cur ms)
+  | _, [] => by unfold MatchesFrom; infer_instance
+  | cur, m :: rest => by
+    unfold MatchesFrom
+    have := instDecidableMatchesFrom len m.2 rest
+    infer_instance
+
+/-- tokenizer/unicode.go `convertType` (segment.None = 0, Number = 1, Letter = 2, Kana = 3, Ideo = 4) -/
+def convertType (segmentWordType : Nat) : Nat :=
+  if segmentWordType = 4 then tIdeographic else if segmentWordType = 3 then tIdeographic
+  else if segmentWordType = 1 then tNumeric else tAlphaNumeric
+
+/-- tokenizer/unicode.go: `segs` are the (bytes, type) pairs the word segmenter yields; state (start, rv) -/
+def unicodeTokenize (segs : List (Bytes × Nat)) : List Token :=
+  (segs.foldl (fun (st : Nat × List Token) (seg : Bytes × Nat) =>
+    let stop := st.1 + seg.1.length
+    if seg.2 ≠ 0 then
+      (stop, ({ term := seg.1, start := st.1, stop := stop, posIncr := 1, typ := convertType seg.2 } : Token) :: st.2)
+    else (stop, st.2)) (0, [])).2.reverse
+
 /-! ## Token filters that build new tokens or write offsets / increments -/
 
 /-- token/ngram.go. `rv` is accumulated in reverse. The state of the two inner loops is (first, rv). -/
@@ -451,25 +511,31 @@ forward visits the last `n` values written, oldest first. A filler token has `St
 def fillerToken (fill : Bytes) : Token :=
   { term := fill, start := -1, stop := -1, posIncr := 1, typ := tAlphaNumeric }
 
-/-- the inner `for i := 0; i < shingleN; i++` loop: state (shingledBytes, start, end) -/
-def shingleJoin (sep : Bytes) (items : List Token) : Bytes × Int × Int :=
-  (items.foldl (fun (st : (Bool × Bytes) × Int × Int) (curr : Token) =>
-    let bytes := (if st.1.1 then st.1.2 else st.1.2 ++ sep) ++ curr.term
-    let start := if st.2.1 = -1 ∧ curr.start ≠ -1 then curr.start else st.2.1
-    let stop := if curr.stop ≠ -1 then curr.stop else st.2.2
-    ((false, bytes), start, stop)) ((true, []), -1, 0)) |> fun r => (r.1.2, r.2.1, r.2.2)
+/-- body of the inner `for i := 0; i < shingleN; i++` loop: state ((i = 0, shingledBytes), start, end) -/
+def shingleJoinStep (sep : Bytes) (st : (Bool × Bytes) × Int × Int) (curr : Token) : (Bool × Bytes) × Int × Int :=
+  let bytes := (if st.1.1 then st.1.2 else st.1.2 ++ sep) ++ curr.term
+  let start := if st.2.1 = -1 ∧ curr.start ≠ -1 then curr.start else st.2.1
+  let stop := if curr.stop ≠ -1 then curr.stop else st.2.2
+  ((false, bytes), start, stop)
+
+def shingleJoin (sep : Bytes) (items : List Token) : (Bool × Bytes) × Int × Int :=
+  items.foldl (shingleJoinStep sep) ((true, []), -1, 0)
+
+/-- the token built after the inner loop from (shingledBytes, start, end) -/
+def shingleToken (zeroIncr : Bool) (j : (Bool × Bytes) × Int × Int) : Token :=
+  let token : Token := { term := j.1.2, typ := tShingle, posIncr := 1, start := 0, stop := 0 }
+  let token := if j.2.1 ≠ -1 then { token with start := j.2.1 } else token
+  let token := if j.2.2 ≠ -1 then { token with stop := j.2.2 } else token
+  if zeroIncr then { token with posIncr := 0 } else token
+
+/-- body of `for shingleN := s.min; shingleN <= s.max; shingleN++` (rv reversed) -/
+def shingleCurrentStep (outputOriginal : Bool) (sep : Bytes) (hist : List Token) (rv : List Token) (shingleN : Int) : List Token :=
+  if (hist.length : Int) < shingleN then rv
+  else shingleToken (decide (rv.length > 0) || outputOriginal) (shingleJoin sep ((hist.take shingleN.toNat).reverse)) :: rv
 
 /-- `shingleCurrentRingState`: its result in order -/
 def shingleCurrent (min max : Int) (outputOriginal : Bool) (sep : Bytes) (hist : List Token) : List Token :=
-  ((intRange min max).foldl (fun (rv : List Token) (shingleN : Int) =>
-    if (hist.length : Int) < shingleN then rv
-    else
-      let j := shingleJoin sep ((hist.take shingleN.toNat).reverse)
-      let token : Token := { term := j.1, typ := tShingle, posIncr := 1, start := 0, stop := 0 }
-      let token := if j.2.1 ≠ -1 then { token with start := j.2.1 } else token
-      let token := if j.2.2 ≠ -1 then { token with stop := j.2.2 } else token
-      let token := if rv.length > 0 ∨ outputOriginal then { token with posIncr := 0 } else token
-      token :: rv) []).reverse
+  ((intRange min max).foldl (shingleCurrentStep outputOriginal sep hist) []).reverse
 
 /-- one `aRing.Value = v; if itemsInRing < max {…}; rv = append(rv, shingle…); aRing = aRing.Next()` -/
 def shinglePush (min max : Int) (outputOriginal : Bool) (sep : Bytes) (st : List Token × List Token) (v : Token) :
@@ -527,39 +593,47 @@ def apostropheFilter (input : List Token) : List Token :=
     | some k => { token with term := token.term.take k }
     | none => token
 
-/-! ### reverse (token/reverse.go)
+/-! ### reverse (token/reverse.go, after the fix "widths from utf8.DecodeRune")
 
-`inputRunes = []rune(string(s))`; each step takes one rune plus the combining marks that follow it,
-of total *encoded* width `wid` (`utf8.RuneLen`, which is 3 for the U+FFFD an invalid byte decodes to),
-and copies `s[cursorIn:cursorIn+wid]` to `output[cursorOut-wid:cursorOut]`: both slice expressions
-panic when `wid` over-counts. `isMark r` = `unicode.Is(Mn|Me|Mc, r)`. -/
+Each step takes the rune at `s[cursorIn:]` plus the combining marks that follow it; their widths `wid`
+are the widths `utf8.DecodeRune` reports on the bytes (1 for an invalid byte), and `s[cursorIn:cursorIn+wid]`
+is copied to `output[cursorOut-wid:cursorOut]`. `isMark r` = `unicode.Is(Mn|Me|Mc, r)`. -/
 
-/-- the inner `for i < len(inputRunes)` loop: the marks that follow, as (their total width, the rest) -/
-def takeMarks (isMark : Rune → Bool) : List Rune → Nat × List Rune
-  | [] => (0, [])
-  | r :: rest => if isMark r then let m := takeMarks isMark rest; (runeLen r + m.1, m.2) else (0, r :: rest)
+/-- the inner `for cursorIn+wid < len(s)` loop on `p = s[cursorIn+wid:]`: total width of the leading marks -/
+def markWidth (isMark : Rune → Bool) (p : Bytes) : Nat :=
+  if _h : p = [] then 0 else
+    if isMark (decodeRune p).1 then (decodeRune p).2 + markWidth isMark (p.drop (decodeRune p).2) else 0
+termination_by p.length
+decreasing_by
+  have := decodeRune_size_pos p _h
+  have : 0 < p.length := List.length_pos_iff.mpr _h
+  simp only [List.length_drop]; omega
 
-theorem takeMarks_length (isMark : Rune → Bool) (rs : List Rune) : (takeMarks isMark rs).2.length ≤ rs.length := by
-  induction rs with
-  | nil => simp [takeMarks]
-  | cons r rest ih => simp only [takeMarks]; split <;> simp <;> omega
+/-- width of one step at `rest = s[cursorIn:]` -/
+def stepWidth (isMark : Rune → Bool) (rest : Bytes) : Nat :=
+  (decodeRune rest).2 + markWidth isMark (rest.drop (decodeRune rest).2)
 
-/-- `output` is represented by the already written tail `out` (`output[cursorOut:]`) -/
-def reverseLoop (isMark : Rune → Bool) (s : Bytes) (rs : List Rune) (cursorIn : Nat) (cursorOut : Int) (out : Bytes) : Option Bytes :=
-  match rs with
-  | [] => some ((List.replicate cursorOut.toNat (0#8)) ++ out)
-  | r :: rest =>
-    let wid := runeLen r + (takeMarks isMark rest).1
+theorem stepWidth_pos (isMark : Rune → Bool) (rest : Bytes) (h : rest ≠ []) : 1 ≤ stepWidth isMark rest := by
+  have := decodeRune_size_pos rest h; unfold stepWidth; omega
+
+/-- `output` is represented by the already written tail `out` (`output[cursorOut:]`); `none` = a slice panic -/
+def reverseLoop (isMark : Rune → Bool) (s : Bytes) (cursorIn : Nat) (cursorOut : Int) (out : Bytes) : Option Bytes :=
+  if _h : cursorIn < s.length then
+    let wid := stepWidth isMark (s.drop cursorIn)
     if cursorOut - wid < 0 then none                      -- output[cursorOut-wid:cursorOut]
     else match goSlice s cursorIn (cursorIn + wid) with   -- s[cursorIn:cursorIn+wid]
       | none => none
-      | some piece => reverseLoop isMark s (takeMarks isMark rest).2 (cursorIn + wid) (cursorOut - wid) (piece ++ out)
-termination_by rs.length
+      | some piece => reverseLoop isMark s (cursorIn + wid) (cursorOut - wid) (piece ++ out)
+  else some ((List.replicate cursorOut.toNat (0#8)) ++ out)
+termination_by s.length - cursorIn
 decreasing_by
-  have := takeMarks_length isMark rest; simp only [List.length_cons]; omega
+  have hne : s.drop cursorIn ≠ [] := by
+    intro h; have := congrArg List.length h; simp only [List.length_drop, List.length_nil] at this; omega
+  have := stepWidth_pos isMark (s.drop cursorIn) hne
+  omega
 
 def reverseTerm (isMark : Rune → Bool) (s : Bytes) : Option Bytes :=
-  reverseLoop isMark s (runes s) 0 s.length []
+  reverseLoop isMark s 0 s.length []
 
 def reverseFilter (isMark : Rune → Bool) (input : List Token) : Option (List Token) :=
   (loop input (fun (rv : List Token) (token : Token) =>
@@ -697,32 +771,49 @@ def Ring2.flushEmit (r : Ring2) : Ring2 :=
   | some t => { r with rv := { t with posIncr := 1 } :: r.rv }
   | none => r
 
-/-- the body of `for _, run := range runes` -/
-def cjkRune (outputUnigram : Bool) (tokout : Token) (st : Ring2 × Int) (run : Rune) : Option (Ring2 × Int) :=
-  let r := st.1
-  let sofar := st.2
-  let rlen : Int := runeLen run
-  match goSlice tokout.term sofar (sofar + rlen) with
+/-- `if itemsInRing > 0 { curr := r.Value; if token.Start-curr.End != 0 { flush … } }` -/
+def Ring2.align (r : Ring2) (token : Token) : Ring2 :=
+  if r.items > 0 then
+    match r.cur with
+    | some curr => if token.start - curr.stop ≠ 0 then r.flushEmit else r
+    | none => r
+  else r
+
+/-- `r = r.Next(); r.Value = token; if itemsInRing < 2 { itemsInRing++ }` -/
+def Ring2.advance (r : Ring2) (token : Token) : Ring2 :=
+  { r with cur := some token, other := r.cur, items := if r.items < 2 then r.items + 1 else r.items }
+
+/-- `if itemsInRing > 1 && s.outputUnigram { unigram := buildUnigram …; PositionIncr = 1; append }` -/
+def Ring2.emitUnigram (outputUnigram : Bool) (r : Ring2) : Ring2 :=
+  if r.items > 1 ∧ outputUnigram then
+    match r.buildUnigram with
+    | some u => { r with rv := { u with posIncr := 1 } :: r.rv }
+    | none => r
+  else r
+
+/-- `bigramToken := outputBigram …; if !s.outputUnigram { PositionIncr = 1 }; append` -/
+def Ring2.emitBigram (outputUnigram : Bool) (r : Ring2) : Ring2 :=
+  match r.outputBigram with
+  | some b => { r with rv := (if !outputUnigram then { b with posIncr := 1 } else b) :: r.rv }
+  | none => r
+
+/-- the ring entry built for one rune of an ideographic token -/
+def cjkPiece (tokout : Token) (piece : Bytes) (sofar rlen : Int) : Token :=
+  { term := piece, start := tokout.start + sofar, stop := tokout.start + sofar + rlen,
+    posIncr := 0, typ := tokout.typ, kw := tokout.kw }
+
+/-- the body of `for range runes` (after the fix "width from DecodeRune of the term bytes"): state (ring, sofar);
+`_, rlen := utf8.DecodeRune(tokout.Term[sofar:])`, then `tokout.Term[sofar:sofar+rlen]` -/
+def cjkRune (outputUnigram : Bool) (tokout : Token) (st : Ring2 × Int) (_run : Rune) : Option (Ring2 × Int) :=
+  match goSlice tokout.term st.2 tokout.term.length with
   | none => none
-  | some piece =>
-    let token : Token := { term := piece, start := tokout.start + sofar, stop := tokout.start + sofar + rlen,
-                           posIncr := 0, typ := tokout.typ, kw := tokout.kw }
-    let r := if r.items > 0 then
-        match r.cur with
-        | some curr => if token.start - curr.stop ≠ 0 then r.flushEmit else r
-        | none => r
-      else r
-    -- r = r.Next(); r.Value = token
-    let r := { r with cur := some token, other := r.cur, items := if r.items < 2 then r.items + 1 else r.items }
-    let r := if r.items > 1 ∧ outputUnigram then
-        match r.buildUnigram with
-        | some u => { r with rv := { u with posIncr := 1 } :: r.rv }
-        | none => r
-      else r
-    let r := match r.outputBigram with
-      | some b => { r with rv := (if !outputUnigram then { b with posIncr := 1 } else b) :: r.rv }
-      | none => r
-    some (r, sofar + rlen)
+  | some rest =>
+    let rlen : Int := ((decodeRune rest).2 : Nat)
+    match goSlice tokout.term st.2 (st.2 + rlen) with
+    | none => none
+    | some piece =>
+      let token := cjkPiece tokout piece st.2 rlen
+      some ((((st.1.align token).advance token).emitUnigram outputUnigram).emitBigram outputUnigram, st.2 + rlen)
 
 /-- `BigramFilter.Filter` -/
 def cjkBigramFilter (outputUnigram : Bool) (input : List Token) : Option (List Token) :=
@@ -739,5 +830,18 @@ def cjkBigramFilter (outputUnigram : Bool) (input : List Token) : Option (List T
         | none => r'
       else r
     r.rv.reverse
+
+/-! ## Hypotheses of the component theorems (decidable; the driver evaluates them on every real stage input) -/
+
+/-- the term has no more runes than the token's span has bytes (true for every slice of the input) -/
+def FitsRunes (t : Token) : Prop := ((runes t.term).length : Int) ≤ t.stop - t.start
+/-- the re-encoded term is no longer than the token's span (true for every valid-UTF-8 slice of the input) -/
+def FitsBytes (t : Token) : Prop := ((buildTerm (runes t.term)).length : Int) ≤ t.stop - t.start
+/-- an ideographic token spans at least the length of its term (true for every slice of the input) -/
+def IdeoFits (t : Token) : Prop := t.typ = tIdeographic → (t.term.length : Int) ≤ t.stop - t.start
+
+instance (t : Token) : Decidable (FitsRunes t) := by unfold FitsRunes; infer_instance
+instance (t : Token) : Decidable (FitsBytes t) := by unfold FitsBytes; infer_instance
+instance (t : Token) : Decidable (IdeoFits t) := by unfold IdeoFits; infer_instance
 
 end Bluge.Analysis
